@@ -216,86 +216,103 @@ def run_case(case):
         else:
             combos = list(itertools.product(ENG, (True, False), (False, True), (False, True)))
             join_elides = False
-        for pe, bt, tr, rq in combos:
-            opt = {"pe": pe, "bt": bt, "tr": tr, "rq": rq}
-            E = engines[pe]
-            req = f"{label} with preferred_engine={pe} backtrack={bt} transfer={tr} require={rq}"
-            mcm.drain(), mbt.drain()
-            try:
-                r2 = apply_final(case, base, b, engines, opt)
-                exc2 = None
-            except Exception as exc:  # noqa: BLE001
-                exc2 = exc
-            cev, cviol = mcm.drain()
-            bev = mbt.drain()
-            mech = None
-            if any(isinstance(n, R.Projection) and isinstance(cur.operation, R.Deduplication) and cm.first is not None for n, cur, cm in cev):
-                mech = "KF-proj-dedup"
-            for v in cviol:
-                c["commute_hook_violations_seen"] = c.get("commute_hook_violations_seen", 0) + 1
-            done = bev[-1]["done"] if bev else None
-            route = "same_engine" if E is base.engine else ("no_backtrack" if not bev else ("done" if done else "not_done"))
-            if exc2 is not None:
-                if isinstance(exc2, R.ColumnError):
-                    if baseline_exc is None:
-                        out["violations"].append({"kind": "column_error_from_backtracking", "mech": mech, "detail": f"{req}: {exc_str(exc2)}"})
-                elif isinstance(exc2, R.EngineError):
-                    if rq and not tr and E is not base.engine:
-                        c["require_raised"] = c.get("require_raised", 0) + 1
-                    elif f["kind"] == "join" or baseline_exc is not None:
-                        c["engine_error_legit"] = c.get("engine_error_legit", 0) + 1
+        # the same requests are issued on the freshly built tree and on the tree a Processor returned
+        # for it (its transfers then carry payloads, which backtracking must not keep)
+        phases = [(base, "built", combos)]
+        try:
+            from ..dbx import VProcessor
+
+            processed_base = VProcessor(db).process(base)
+            if processed_base is not base:
+                phases.append((processed_base, "processed", [x for x in combos if x[1]]))
+        except Exception:  # noqa: BLE001 - C07 judges the Processor itself
+            c["base_not_processable"] = 1
+        original_base = base
+        for base, phase, phase_combos in phases:
+          base_str = str(base)
+          for pe, bt, tr, rq in phase_combos:
+                opt = {"pe": pe, "bt": bt, "tr": tr, "rq": rq}
+                E = engines[pe]
+                req = f"{label} [{phase} tree] with preferred_engine={pe} backtrack={bt} transfer={tr} require={rq}"
+                mcm.drain(), mbt.drain()
+                try:
+                    r2 = apply_final(case, base, b, engines, opt)
+                    exc2 = None
+                except Exception as exc:  # noqa: BLE001
+                    exc2 = exc
+                cev, cviol = mcm.drain()
+                bev = mbt.drain()
+                mech = None
+                if any(isinstance(n, R.Projection) and isinstance(cur.operation, R.Deduplication) and cm.first is not None for n, cur, cm in cev):
+                    mech = "KF-proj-dedup"
+                for v in cviol:
+                    c["commute_hook_violations_seen"] = c.get("commute_hook_violations_seen", 0) + 1
+                done = bev[-1]["done"] if bev else None
+                route = "same_engine" if E is base.engine else ("no_backtrack" if not bev else ("done" if done else "not_done"))
+                if exc2 is not None:
+                    if isinstance(exc2, R.ColumnError):
+                        if baseline_exc is None:
+                            out["violations"].append({"kind": "column_error_from_backtracking", "mech": mech, "detail": f"{req}: {exc_str(exc2)}"})
+                    elif isinstance(exc2, R.EngineError):
+                        if rq and not tr and E is not base.engine:
+                            c["require_raised"] = c.get("require_raised", 0) + 1
+                        elif f["kind"] == "join" or baseline_exc is not None:
+                            c["engine_error_legit"] = c.get("engine_error_legit", 0) + 1
+                        else:
+                            out["violations"].append({"kind": "unexpected_engine_error", "mech": mech, "detail": f"{req}: {exc_str(exc2)}"})
+                    elif isinstance(exc2, R.RelationalAlgebraError) and "will not preserve row order" in str(exc2):
+                        c["order_loss_refusals"] = c.get("order_loss_refusals", 0) + 1
+                    elif baseline_exc is not None and type(baseline_exc) is type(exc2):
+                        c["same_exception_as_baseline"] = c.get("same_exception_as_baseline", 0) + 1
                     else:
-                        out["violations"].append({"kind": "unexpected_engine_error", "mech": mech, "detail": f"{req}: {exc_str(exc2)}"})
-                elif isinstance(exc2, R.RelationalAlgebraError) and "will not preserve row order" in str(exc2):
-                    c["order_loss_refusals"] = c.get("order_loss_refusals", 0) + 1
-                elif baseline_exc is not None and type(baseline_exc) is type(exc2):
-                    c["same_exception_as_baseline"] = c.get("same_exception_as_baseline", 0) + 1
-                else:
-                    out["violations"].append({"kind": "unexpected_exception", "mech": mech, "detail": f"{req}: {exc_str(exc2)}"})
-                continue
-            # ---- structural obligations
-            if set(r2.columns) != {T(x) for x in want.cols}:
-                out["violations"].append({"kind": "columns_differ", "mech": mech, "detail": f"{req}: {sorted(map(str, r2.columns))} vs {sorted(want.cols)} tree {short(r2)}"})
-                continue
-            if r2 is base or join_elides:
-                c["documented_noop_requests"] = c.get("documented_noop_requests", 0) + 1
-            elif E is not base.engine:
-                if tr:
-                    if bt and done:
-                        if r2.engine is not base.engine:
-                            out["violations"].append({"kind": "done_but_engine_changed", "mech": mech, "detail": f"{req}: result engine {r2.engine}"})
-                    elif r2.engine is not E:
-                        out["violations"].append({"kind": "transfer_requested_but_not_in_preferred_engine", "mech": mech, "detail": f"{req}: result engine {r2.engine} tree {short(r2)}"})
-                    else:
-                        c["transfer_added"] = c.get("transfer_added", 0) + 1
-                elif rq:
-                    if op_nodes_outside(r2, E) > op_nodes_outside(base, E):
-                        out["violations"].append({"kind": "require_added_operation_outside_preferred", "mech": mech, "detail": f"{req}: tree {short(r2)} base {short(base)}"})
-                if bev:
-                    c["backtrack_done" if done else "backtrack_partial_or_failed"] = c.get("backtrack_done" if done else "backtrack_partial_or_failed", 0) + 1
-            # ---- content
-            try:
-                rows2, _, _ = multi.evaluate(r2, db)
-            except Exception as exc:  # noqa: BLE001
-                if isinstance(exc, R.EngineError) and "Joins are not supported by the iteration engine" in str(exc):
-                    # accepted-then-unsupported joins are C08's (known) finding, not a backtracking matter
-                    c["join_landed_in_iteration_engine"] = c.get("join_landed_in_iteration_engine", 0) + 1
+                        out["violations"].append({"kind": "unexpected_exception", "mech": mech, "detail": f"{req}: {exc_str(exc2)}"})
                     continue
-                if multi.prune_order_loss(r2, exc):
-                    c["process_time_order_refusal_known_finding"] = c.get("process_time_order_refusal_known_finding", 0) + 1
+                # ---- structural obligations
+                if set(r2.columns) != {T(x) for x in want.cols}:
+                    out["violations"].append({"kind": "columns_differ", "mech": mech, "detail": f"{req}: {sorted(map(str, r2.columns))} vs {sorted(want.cols)} tree {short(r2)}"})
                     continue
-                out["violations"].append({"kind": "result_not_evaluable", "mech": mech, "detail": f"{req}: {exc_str(exc)} tree {short(r2, 400)}"})
-                continue
-            c["requests_compared"] = c.get("requests_compared", 0) + 1
-            if not rows_ok(rows2):
-                out["violations"].append({
-                    "kind": "rows_differ", "mech": mech,
-                    "detail": f"{req}: tree {short(r2, 400)} got {short(model.canon(rows2), 250)} want {short(model.canon(want.rows), 250)} backtrack_messages={bev[-1]['messages'] if bev else None}",
-                })
-            if route not in ("same_engine", "no_backtrack") or (tr and E is not base.engine):
-                out["sigs"].append(f"{f['kind']}:{int(bt)}{int(tr)}{int(rq)}:{route}:{gen.op_signature(case['prog'])[-5:]}:{pe}>{case['engine']}")
-            if str(base) != base_str:
-                out["violations"].append({"kind": "base_tree_changed", "detail": req})
+                if r2 is base or join_elides:
+                    c["documented_noop_requests"] = c.get("documented_noop_requests", 0) + 1
+                elif E is not base.engine:
+                    if tr:
+                        if bt and done:
+                            if r2.engine is not base.engine:
+                                out["violations"].append({"kind": "done_but_engine_changed", "mech": mech, "detail": f"{req}: result engine {r2.engine}"})
+                        elif r2.engine is not E:
+                            out["violations"].append({"kind": "transfer_requested_but_not_in_preferred_engine", "mech": mech, "detail": f"{req}: result engine {r2.engine} tree {short(r2)}"})
+                        else:
+                            c["transfer_added"] = c.get("transfer_added", 0) + 1
+                    elif rq:
+                        if op_nodes_outside(r2, E) > op_nodes_outside(base, E):
+                            out["violations"].append({"kind": "require_added_operation_outside_preferred", "mech": mech, "detail": f"{req}: tree {short(r2)} base {short(base)}"})
+                    if bev:
+                        c["backtrack_done" if done else "backtrack_partial_or_failed"] = c.get("backtrack_done" if done else "backtrack_partial_or_failed", 0) + 1
+                # ---- content
+                try:
+                    rows2, _, _ = multi.evaluate(r2, db)
+                except Exception as exc:  # noqa: BLE001
+                    if isinstance(exc, R.EngineError) and "Joins are not supported by the iteration engine" in str(exc):
+                        # accepted-then-unsupported joins are C08's (known) finding, not a backtracking matter
+                        c["join_landed_in_iteration_engine"] = c.get("join_landed_in_iteration_engine", 0) + 1
+                        continue
+                    if multi.prune_order_loss(r2, exc):
+                        c["process_time_order_refusal_known_finding"] = c.get("process_time_order_refusal_known_finding", 0) + 1
+                        continue
+                    out["violations"].append({"kind": "result_not_evaluable", "mech": mech, "detail": f"{req}: {exc_str(exc)} tree {short(r2, 400)}"})
+                    continue
+                c["requests_compared"] = c.get("requests_compared", 0) + 1
+                if phase == "processed":
+                    c["requests_on_processed_tree"] = c.get("requests_on_processed_tree", 0) + 1
+                if not rows_ok(rows2):
+                    out["violations"].append({
+                        "kind": "rows_differ", "mech": mech,
+                        "detail": f"{req}: tree {short(r2, 400)} got {short(model.canon(rows2), 250)} want {short(model.canon(want.rows), 250)} backtrack_messages={bev[-1]['messages'] if bev else None}",
+                    })
+                if route not in ("same_engine", "no_backtrack") or (tr and E is not base.engine):
+                    out["sigs"].append(f"{f['kind']}:{int(bt)}{int(tr)}{int(rq)}:{route}:{gen.op_signature(case['prog'])[-5:]}:{pe}>{case['engine']}")
+                if str(base) != base_str:
+                    out["violations"].append({"kind": "base_tree_changed", "detail": req})
+        base = original_base
         for k, v in mcm.COUNTERS.items():
             c[k] = c.get(k, 0) + v
         if out["sigs"]:
